@@ -4,7 +4,8 @@ import Slock.Model.Value
   value <locked> <waited01> <lock|unlock> <updOrZero01> <fromAof01> <recover01> <frame hex>;<frame hex>;…
   The cell starts empty; the frames are applied in order through `Slock.Value.processFrame`; after a panic the
   cell is discarded (fresh manager). Output, one item per frame joined by `;`:
-    nil | <data hex> <commandType> <isAof01> <bytes between len and cap, hex> | panic
+    nil | <data hex> <commandType> <isAof01> <bytes between len and cap, hex> | refused | panic
+  (refused = NewLockCommandDataFromOriginBytes returns nil: the parser answers with an error, the cell is untouched)
 -/
 namespace Driver
 open Slock.Value
@@ -16,9 +17,10 @@ def showCell : Option Cell → String
 def runFrames (cx : Ctx) : Option Cell → List Bytes → List String
   | _, [] => []
   | cur, f :: fs =>
-    match processFrame cx cur f with
-    | .ok cur' => showCell cur' :: runFrames cx cur' fs
-    | .error _ => "panic" :: runFrames cx none fs
+    match parseFrame f [], processFrame cx cur f with
+    | none, _ => "refused" :: runFrames cx cur fs
+    | _, .ok cur' => showCell cur' :: runFrames cx cur' fs
+    | _, .error _ => "panic" :: runFrames cx none fs
 
 def parse01 (s : String) : Option Bool :=
   if s == "0" then some false else if s == "1" then some true else none
